@@ -44,6 +44,8 @@ type Solver struct {
 	TimeoutMs int
 	dead      bool
 	lastSat   bool
+	lines     chan string
+	Hung      int
 }
 
 // Backends available in this sandbox.
@@ -92,6 +94,20 @@ func (s *Solver) start() error {
 	}
 	s.in = bufio.NewWriterSize(stdin, 1<<16)
 	s.out = bufio.NewReaderSize(stdout, 1<<16)
+	lines := make(chan string, 1024)
+	s.lines = lines
+	go func(r *bufio.Reader) {
+		for {
+			line, err := r.ReadString('\n')
+			if line != "" {
+				lines <- line
+			}
+			if err != nil {
+				close(lines)
+				return
+			}
+		}
+	}(s.out)
 	s.defined = map[int]int{}
 	s.defLog = [][]int{nil}
 	s.ufSent = 0
@@ -226,6 +242,9 @@ func (s *Solver) defRec(t *Term) {
 
 // SyncPC makes the solver's assertion stack equal to pc (one level per conjunct).
 func (s *Solver) SyncPC(pc []*Term) {
+	if s.dead {
+		s.Restart()
+	}
 	k := 0
 	for k < len(pc) && k < len(s.pc) && pc[k] == s.pc[k] {
 		k++
@@ -242,8 +261,27 @@ func (s *Solver) SyncPC(pc []*Term) {
 	}
 }
 
+// readRaw returns the next output line; a solver that stays silent past its time limit is killed.
+func (s *Solver) readRaw() (string, error) {
+	limit := time.Duration(s.TimeoutMs)*time.Millisecond + 3*time.Second
+	if s.TimeoutMs == 0 {
+		limit = time.Hour
+	}
+	select {
+	case line, ok := <-s.lines:
+		if !ok {
+			return "", io.EOF
+		}
+		return line, nil
+	case <-time.After(limit):
+		s.Hung++
+		s.cmd.Process.Kill()
+		return "", fmt.Errorf("solver exceeded its time limit and was killed")
+	}
+}
+
 func (s *Solver) readLine() (string, error) {
-	line, err := s.out.ReadString('\n')
+	line, err := s.readRaw()
 	return strings.TrimSpace(line), err
 }
 
@@ -299,12 +337,17 @@ func (s *Solver) check() Result {
 func (s *Solver) CheckWith(extra *Term) Result {
 	if s.dead {
 		s.Restart()
-		return Unknown
 	}
 	s.push()
 	s.define(extra)
 	s.send("(assert " + extra.Ref() + ")")
 	r := s.check()
+	if s.dead {
+		// the process was killed or died: everything it knew is gone
+		s.lastSat = false
+		s.Restart()
+		return Unknown
+	}
 	s.lastSat = r == Sat
 	if r != Sat {
 		s.pop()
@@ -350,7 +393,7 @@ func (s *Solver) Values(vars []*Term) (map[int]uint64, error) {
 		var txt strings.Builder
 		started := false
 		for {
-			line, err := s.out.ReadString('\n')
+			line, err := s.readRaw()
 			if err != nil {
 				s.dead = true
 				return nil, err
